@@ -29,7 +29,7 @@ def main():
     ap.add_argument("--skip-demo", action="store_true")
     ap.add_argument("--keep", action="store_true")
     a = ap.parse_args()
-    tag = "%s-%s" % (a.prop.lower(), os.path.basename(a.dir.rstrip("/")))
+    tag = "%s-%s-%d" % (a.prop.lower(), os.path.basename(a.dir.rstrip("/")), os.getpid())
     wt = "/tmp/ev-" + tag
     sh(["git", "-C", "/repo", "worktree", "remove", "--force", wt])
     shutil.rmtree(wt, ignore_errors=True)
@@ -53,7 +53,7 @@ def main():
             for d in demos:
                 shutil.copy(d, os.path.join(wt, pkg, os.path.basename(d)))
             runpat = "ZZ|zz|Demo"
-            cmd = "go test -vet=off -count=1 -run '%s' ./%s 2>&1 | tail -15" % (runpat, pkg)
+            cmd = "unshare -n sh -c \"ip link set lo up; go test -vet=off -count=1 -run '%s' ./%s\" 2>&1 | tail -15" % (runpat, pkg)
             rc0, out0 = sh(cmd, cwd=wt, timeout=1200)
             res["demo_without"] = "PASS" if ("ok " in out0 and "FAIL" not in out0) else "FAIL"
             res["demo_without_tail"] = out0[-400:]
